@@ -100,6 +100,7 @@ FEATURE_PREDICATES = {
     "empty_triple_fstring": "empty_triple_fstring",
     "fstring_then_plain_string": "fstring_then_plain_string",
     "plain_string_then_fstring": "plain_string_then_fstring",
+    "multiline_fstring_then_fstring": "multiline_fstring_then_fstring",
     "bare_tuple_trailing_comma": "bare_tuple_trailing_comma_outside_region",
     "fstring_escaped_brace_and_hash": "fstring_escaped_brace_and_hash",
     "kwonly": "kwonly_posonly_params_unvisited",
